@@ -182,9 +182,12 @@ def subsystem_calls(body, recv_names=("subsystem", "subsystem1", "subsystem2", "
     """Calls `<x>.<recv>.<m>(...)` in body -> list of (recv, m, call)."""
     out = []
     for n in ast.walk(body):
-        if isinstance(n, ast.Call) and isinstance(n.func, ast.Attribute) and isinstance(n.func.value, ast.Attribute) \
-                and n.func.value.attr in recv_names and isinstance(n.func.value.value, ast.Name):
-            out.append((n.func.value.attr, n.func.attr, n))
+        if isinstance(n, ast.Call) and isinstance(n.func, ast.Attribute):
+            r = n.func.value
+            if isinstance(r, ast.Attribute) and r.attr in recv_names and isinstance(r.value, ast.Name):
+                out.append((r.attr, n.func.attr, n))
+            elif isinstance(r, ast.Name) and r.id in recv_names:
+                out.append((r.id, n.func.attr, n))  # closure variable `subsystem` (forces/moments)
     return out
 
 
